@@ -1963,14 +1963,15 @@ static void run_level(ScenState &S)
 int main(int argc, char **argv)
 {
   vr::init(argc, argv);
-  std::string only, only_prefix;
+  std::string only;
+  std::vector<std::string> only_prefixes;
   int bound_override = -1, nworkers = 16;
   for (int i = 1; i < argc; i++) {
     std::string a = argv[i];
     if (a == "--scenario" && i + 1 < argc)
       only = argv[++i];
     else if (a == "--only-prefix" && i + 1 < argc)
-      only_prefix = argv[++i];
+      only_prefixes.push_back(argv[++i]);
     else if (a == "--bound" && i + 1 < argc)
       bound_override = atoi(argv[++i]);
     else if (a == "--workers" && i + 1 < argc)
@@ -2047,8 +2048,13 @@ int main(int argc, char **argv)
     s.sc = scs[i];
     s.index = (int)i;
     s.bound = bound_override >= 0 ? bound_override : (vr::thorough() ? scs[i]->bound_thorough : scs[i]->bound_quick);
-    if (!only_prefix.empty() && strncmp(scs[i]->name, only_prefix.c_str(), only_prefix.size()) != 0)
-      continue;
+    if (!only_prefixes.empty()) {
+      bool match = false;
+      for (auto &pf : only_prefixes)
+        match = match || strncmp(scs[i]->name, pf.c_str(), pf.size()) == 0;
+      if (!match)
+        continue;
+    }
     if (s.bound < 0)
       continue;  // not part of this tier
     s.frontier.push_back(std::vector<unsigned char>());
